@@ -238,6 +238,11 @@ def enumerate_specs(tier, seed):
             for ex in ((1, 2, 3) if tier == "thorough" else (1, 2)):
                 for api in ("write", "write_row_groups"):
                     specs.append({"partitioned": part, "new_files": nf, "existing_rgs": ex, "api": api})
+    # datasets whose highest part number has two digits (part.10 > part.9 numerically, < lexicographically): a part-name
+    # allocation that compares names as text reuses an existing number and opens an existing data file for writing
+    for part in (False, True):
+        for api in (("write", "write_row_groups") if tier == "thorough" else ("write",)):
+            specs.append({"partitioned": part, "new_files": 1, "existing_rgs": 11, "api": api})
     return specs
 
 
